@@ -4,16 +4,15 @@ From Coq Require Import List ZArith Bool Arith Lia.
 From Inferno Require Import C19.Encoders C19.EncodersLists C19.EncodersPoisson.
 Import ListNotations.
 Theorem online_loop_column : forall (St E P : Type) (dec : St -> St) (fire : P -> St -> bool) 
-    (renew : P -> E -> St) (edef : E) (ok : E -> Prop) (guard : nat -> bool) 
-    (ps : list P),
+    (renew : P -> E -> St) (edef : E) (ok : E -> Prop) (ps : list P),
   ok edef ->
-  forall (steps : nat) (ivs : list St) (draws : list (list E)) (outs : list (list bool))
-    (raised : bool),
+  forall (steps : nat) (ivs : list St) (draws : list (list E)),
   Forall (Forall ok) draws ->
   length ps = length ivs ->
-  online_loop dec fire renew edef guard ps ivs draws steps = (outs, raised) ->
   forall (j : nat) (p : P) (i : St),
   nth_error ps j = Some p ->
-  nth_error ivs j = Some i -> elem_trace dec fire renew ok p i (column false j outs).
+  nth_error ivs j = Some i ->
+  elem_trace dec fire renew ok p i
+    (column false j (online_loop dec fire renew edef ps ivs draws steps)).
 Proof. exact (@Inferno.C19.EncodersLists.online_loop_column). Qed.
 Print Assumptions online_loop_column.
